@@ -57,6 +57,12 @@ def trees():
                  "src/foo_bar.rs": ("f", b"fn foo_bar() {}\n", 0o755)}
     t["e3r0"] = {"a.txt": ("f", b"foo_bar\n", 0o644), "b.txt": ("f", b"FOO_BAR\n", 0o644),
                  "c.txt": ("f", b"foo-bar and foo_bar\n", 0o664)}
+    # a renamed symlink (symlinks whose own name contains the term are planned as File renames; the target is not followed)
+    # next to an edited and a renamed file: apply / redo must move the link itself
+    t["e1r2link"] = {"a.txt": ("f", b"x foo_bar y\n", 0o644),
+                     "foo_bar.txt": ("f", b"plain\n", 0o600),
+                     "foo_bar_ln": ("l", "a.txt"),
+                     "foo_bar_dangling": ("l", "nowhere/at/all")}
     t["e2r2flat"] = {"foo_bar_a.txt": ("f", b"foo_bar\n", 0o644), "foo_bar_b.txt": ("f", b"x\n", 0o644),
                      "c.txt": ("f", b"fooBar\n", 0o644)}
     return t
@@ -64,12 +70,13 @@ def trees():
 
 def family(thorough):
     """list of scenarios {name, tree, cmd, setup}; the first entries are the quick tier"""
-    quick = [("e3r2nest", "rename", "old"), ("e2r3nest", "apply", "fresh"), ("e2r1", "redo", "old"),
+    quick = [("e3r2nest", "rename", "old"), ("e2r3nest", "apply", "fresh"), ("e2r1", "redo", "old"), ("e1r2link", "redo", "fresh"),
              ("e2r1", "replace", "fresh"), ("e3r2nest", "undo", "old")]
     more = [("e2r2dirs", "apply", "fresh"), ("e1r0", "rename", "fresh"), ("e2r2dirs", "rename", "fresh"), ("e3r0", "apply", "old"),
             ("e1r1", "apply", "fresh"), ("e2r2flat", "rename", "old"), ("e2r2dirs", "redo", "fresh"),
             ("e2r2dirs", "undo", "fresh"), ("e2r1", "undo", "fresh"), ("e1r1", "replace", "old"),
-            ("e3r2nest", "apply", "old"), ("e3r0", "redo", "old")]
+            ("e3r2nest", "apply", "old"), ("e3r0", "redo", "old"), ("e1r2link", "apply", "old"), ("e1r2link", "undo", "fresh"),
+            ("e1r2link", "rename", "fresh")]
     T = trees()
     out = []
     for name, cmd, setup in quick + (more if thorough else []):
